@@ -1326,6 +1326,132 @@ func (x *extractor) accessTable() string {
 		}
 		sb.WriteString(r[0] + sep + r[1] + "\n")
 	}
+	sb.WriteString("]\n\n")
+	// ---- lock-order edges: (held, acquired, function) whenever a blocking Lock/RLock of `acquired` happens — directly or
+	// inside a statically resolved callee / synchronously executed closure — at a node where `held` is (must-)held
+	direct := map[string]map[string]bool{}
+	callees := map[string]map[string]bool{}
+	for _, g := range x.graphs {
+		direct[g.name] = map[string]bool{}
+		callees[g.name] = map[string]bool{}
+		for i, n := range g.nodes {
+			switch n.ev.kind {
+			case kLock, kRLock:
+				direct[g.name][n.ev.sym] = true
+			case kCall:
+				if callee := resolve(g, n.ev.sym); callee != nil {
+					callees[g.name][callee.name] = true
+				}
+				if syncCallees[n.ev.sym] {
+					for j := i - 1; j >= 0 && j >= i-6; j-- {
+						if g.nodes[j].ev.kind == kLit {
+							callees[g.name][g.nodes[j].ev.sym] = true
+						}
+					}
+				}
+			case kOnceDo:
+				if i+1 < len(g.nodes) && g.nodes[i+1].ev.kind == kLit {
+					callees[g.name][g.nodes[i+1].ev.sym] = true
+				}
+			case kCallVar:
+				target := n.ev.sym
+				if lit, ok := x.litVar[litKey{x.declFor[g.name], target}]; ok {
+					target = lit
+				}
+				if _, ok := byName[target]; ok {
+					callees[g.name][target] = true
+				}
+			}
+		}
+	}
+	acq := map[string]map[string]bool{}
+	for name, d := range direct {
+		acq[name] = map[string]bool{}
+		for l := range d {
+			acq[name][l] = true
+		}
+	}
+	for changed := true; changed; {
+		changed = false
+		for name, cs := range callees {
+			for c := range cs {
+				for l := range acq[c] {
+					if !acq[name][l] {
+						acq[name][l] = true
+						changed = true
+					}
+				}
+			}
+		}
+	}
+	type edge struct{ h, l, f string }
+	edgeSet := map[edge]bool{}
+	for _, g := range x.graphs {
+		e := entry[g.name]
+		if e == nil {
+			e = lockset{}
+		}
+		in := g.flow(e)
+		for i, n := range g.nodes {
+			ls := in[i]
+			if len(ls) == 0 {
+				continue
+			}
+			var got []string
+			switch n.ev.kind {
+			case kLock, kRLock:
+				got = []string{n.ev.sym}
+			case kCall:
+				if callee := resolve(g, n.ev.sym); callee != nil {
+					for l := range acq[callee.name] {
+						got = append(got, l)
+					}
+				}
+			case kCallVar:
+				target := n.ev.sym
+				if lit, ok := x.litVar[litKey{x.declFor[g.name], target}]; ok {
+					target = lit
+				}
+				for l := range acq[target] {
+					got = append(got, l)
+				}
+			case kOnceDo:
+				if i+1 < len(g.nodes) && g.nodes[i+1].ev.kind == kLit {
+					for l := range acq[g.nodes[i+1].ev.sym] {
+						got = append(got, l)
+					}
+				}
+			}
+			for _, l := range got {
+				for h := range ls {
+					if h != l {
+						edgeSet[edge{h, l, g.name}] = true
+					}
+				}
+			}
+		}
+	}
+	var edges []edge
+	for e := range edgeSet {
+		edges = append(edges, e)
+	}
+	sort.Slice(edges, func(i, j int) bool {
+		if edges[i].h != edges[j].h {
+			return edges[i].h < edges[j].h
+		}
+		if edges[i].l != edges[j].l {
+			return edges[i].l < edges[j].l
+		}
+		return edges[i].f < edges[j].f
+	})
+	sb.WriteString("/-- lock-order edges (held, acquired, function): a blocking acquisition of `acquired` while `held` is held -/\ndef lockEdges : List (Nat × Nat × Nat) := [\n")
+	for i, e := range edges {
+		sep := ","
+		if i == len(edges)-1 {
+			sep = ""
+		}
+		fmt.Fprintf(&sb, "  (%d, %d, %d)%s  -- %s -> %s in %s\n", x.sym(e.h), x.sym(e.l), x.sym(e.f), sep, e.h, e.l, e.f)
+	}
 	sb.WriteString("]\n\n/- function symbols -/\nnamespace F\n")
 	seen := map[string]bool{}
 	for _, g := range x.graphs {
